@@ -80,6 +80,31 @@ func checkC19(p *Program, r *Result) {
 			}
 		}
 	}
+	// ---- C19.k: type names are looked up exactly: a literal prefix is removed with TrimPrefix/CutPrefix, never with
+	// a cutset function (which removes characters, eating the first letters of the name).
+	r.rule("C19.k", "dependency names are taken verbatim (prefix removal, not cutset trimming)", 1)
+	nk := 0
+	for _, fn := range fns {
+		for _, ci := range callsIn(fn, func(ssa.CallInstruction) bool { return true }) {
+			switch n := staticCalleeName(ci.Common()); n {
+			case "strings.TrimPrefix", "strings.CutPrefix":
+				nk++
+				r.held("C19.k", funcName(fn), "call "+trimPkg(n), p.pos(ci.Pos()), "removes a literal prefix")
+			case "strings.TrimLeft", "strings.TrimRight", "strings.Trim":
+				if c, ok := ci.Common().Args[1].(*ssa.Const); ok && c.Value != nil {
+					cut := c.Value.ExactString()
+					if regexpHasAlnum(cut) {
+						nk++
+						r.violated("C19.k", funcName(fn), "call "+trimPkg(n), p.pos(ci.Pos()),
+							"a cutset function with cutset "+cut+" is applied to a type name: it strips every leading/trailing character of the set, so names beginning with those letters are mangled and no longer match their definition")
+					}
+				}
+			}
+		}
+	}
+	if nk == 0 {
+		r.held("C19.k", "ros1msg", "no prefix handling by cutset", "", "no Trim*/TrimPrefix call on names")
+	}
 	// ---- C19.h
 	cfg := errFlowCfg{rule: "C19.h", inScope: func(site ssa.CallInstruction) (bool, string) {
 		f := site.Common().StaticCallee()
@@ -94,6 +119,15 @@ func checkC19(p *Program, r *Result) {
 	for _, fn := range fns {
 		runErrFlow(p, r, fn, cfg)
 	}
+}
+
+func regexpHasAlnum(s string) bool {
+	for _, c := range s {
+		if c >= 'a' && c <= 'z' || c >= 'A' && c <= 'Z' || c >= '0' && c <= '9' {
+			return true
+		}
+	}
+	return false
 }
 
 func calleeLabel(p *Program, ci ssa.CallInstruction) string {
